@@ -36,6 +36,8 @@ type c12ExpCase struct {
 	// take this long inside the state's locked section, so that readers
 	// and writers queue up behind a purge in progress.
 	StoreDelayUs int `json:"storeDelayUs,omitempty"`
+	// Noise > 0: schedule noise (see noise_test.go).
+	Noise int `json:"noise,omitempty"`
 }
 
 var c12ExpOps = []string{"getF1", "getF2", "getR1", "getDep", "search", "list", "event", "event", "getKeep", "addOther", "getF3", "getF3", "getF3", "rewriteF3", "rewriteF3"}
@@ -56,6 +58,9 @@ func genC12Exp(t *rapid.T) c12ExpCase {
 	}
 	c.LeadMs = rapid.SampledFrom([]int{5, 20, 40}).Draw(t, "lead")
 	c.StoreDelayUs = rapid.SampledFrom([]int{0, 200, 500}).Draw(t, "storeDelayUs")
+	if rapid.Bool().Draw(t, "noise?") {
+		c.Noise = rapid.IntRange(1, 1000).Draw(t, "noise")
+	}
 	return c
 }
 
@@ -113,7 +118,7 @@ func runC12Exp(c c12ExpCase) *vlib.Outcome {
 	if !must("AddRule keep", err) {
 		return o
 	}
-	const nx = 6
+	const nx = 24
 	for k := 0; k < nx; k++ {
 		_, err = loc.AddFact(ctx0, fmt.Sprintf("x%d", k), core.Map{"v": "three", "expires": float64(E)})
 		if !must("AddFact x", err) {
@@ -143,6 +148,11 @@ func runC12Exp(c c12ExpCase) *vlib.Outcome {
 	}
 	time.Sleep(time.Until(instant.Add(-time.Duration(c.LeadMs) * time.Millisecond)))
 
+	if c.Noise > 0 {
+		_, end := startNoise(c.Noise)
+		defer end()
+		o.Label("schedule-noise")
+	}
 	stop := instant.Add(80 * time.Millisecond)
 	var mu sync.Mutex
 	fail := func(kind, format string, args ...interface{}) {
@@ -150,7 +160,7 @@ func runC12Exp(c c12ExpCase) *vlib.Outcome {
 		o.Fail(kind, format, args...)
 		mu.Unlock()
 	}
-	// x0..x5 expire like the others but may be rewritten (without an
+	// x0..x23 expire like the others but may be rewritten (without an
 	// expiry) by a client: from the moment such a write has returned, the
 	// item is there
 	var rewritten [nx]int64 // UnixNano of the first completed rewrite, 0 = none
